@@ -2,10 +2,11 @@
 // SPDX-License-Identifier: Apache-2.0
 // Copyright (c) A5 contributors
 
-use crate::coordinate_systems::{Face, LonLat};
+use crate::coordinate_systems::{Cartesian, Face, LonLat, Spherical};
 use crate::core::constants::PI_OVER_5;
 use crate::core::coordinate_transforms::{
-    face_to_ij, from_lon_lat, normalize_longitudes, to_lon_lat, to_polar,
+    face_to_ij, from_lon_lat, normalize_longitudes, to_cartesian, to_lon_lat, to_polar,
+    to_spherical,
 };
 use crate::core::hilbert::{ij_to_s, s_to_anchor};
 use crate::core::origin::{find_nearest_origin, quintant_to_segment, segment_to_quintant};
@@ -40,17 +41,25 @@ pub fn lonlat_to_cell(lonlat: LonLat, resolution: i32) -> Result<u64, String> {
     }
 
     let hilbert_resolution = 1 + resolution - FIRST_HILBERT_RESOLUTION;
-    let mut samples = vec![lonlat];
+    let spherical = from_lon_lat(lonlat);
+    let mut samples = vec![spherical];
     let n = 25;
-    let scale = 50.0 / 2.0_f64.powi(hilbert_resolution);
+    let scale = 50.0_f64.to_radians() / 2.0_f64.powi(hilbert_resolution);
 
+    // Offset the samples in the plane tangent to the sphere, so that the search pattern has the same
+    // shape everywhere (offsetting longitude & latitude collapses it onto a meridian close to the poles)
+    let (theta, phi) = (spherical.theta().get(), spherical.phi().get());
+    let center = to_cartesian(spherical);
+    let east = [-theta.sin(), theta.cos(), 0.0];
+    let south = [phi.cos() * theta.cos(), phi.cos() * theta.sin(), -phi.sin()];
     for i in 0..n {
         let r = (i as f64 / n as f64) * scale;
-        let coordinate = LonLat::new(
-            lonlat.longitude() + (i as f64).cos() * r,
-            lonlat.latitude() + (i as f64).sin() * r,
-        );
-        samples.push(coordinate);
+        let (dx, dy) = ((i as f64).cos() * r, (i as f64).sin() * r);
+        samples.push(to_spherical(Cartesian::new(
+            center.x() + dx * east[0] - dy * south[0],
+            center.y() + dx * east[1] - dy * south[1],
+            center.z() + dx * east[2] - dy * south[2],
+        )));
     }
 
     // Deduplicate estimates
@@ -65,7 +74,7 @@ pub fn lonlat_to_cell(lonlat: LonLat, resolution: i32) -> Result<u64, String> {
         {
             verif_sample_index = verif_sample_index.wrapping_add(1);
         }
-        let estimate = lonlat_to_estimate(sample, resolution)?;
+        let estimate = spherical_to_estimate(sample, resolution)?;
         let estimate_key = serialize(&estimate)?;
         if !estimate_set.contains(&estimate_key) {
             estimate_set.insert(estimate_key);
@@ -98,7 +107,10 @@ pub fn lonlat_to_cell(lonlat: LonLat, resolution: i32) -> Result<u64, String> {
 /// Thus this function only returns a cell nearby, and we need to search the neighbourhood to find the correct cell
 /// TODO: Implement a more accurate function
 fn lonlat_to_estimate(lonlat: LonLat, resolution: i32) -> Result<A5Cell, String> {
-    let spherical = from_lon_lat(lonlat);
+    spherical_to_estimate(from_lon_lat(lonlat), resolution)
+}
+
+fn spherical_to_estimate(spherical: Spherical, resolution: i32) -> Result<A5Cell, String> {
     let origin = find_nearest_origin(spherical);
 
     let dodecahedron = DodecahedronProjection::get_thread_local();
